@@ -19,6 +19,12 @@ def adjacency(graph):
     return adj
 
 
+def G_edges_missing_speed(net):
+    from hivemon.gen import graph as G
+
+    return [(u, v, d) for u, v, d in G.grid(net).edges(data=True) if "speed_kmph" not in d]
+
+
 def dijkstra_all(adj, s):
     dist = {s: 0.0}
     pq = [(0.0, s)]
@@ -51,8 +57,17 @@ def run_sweep(case: Dict[str, Any]) -> Dict[str, Any]:
             viol.append({"property": "C14", "mechanism": mech, "message": msg, "step": None, "witness": {k: str(v)[:400] for k, v in w.items()}})
 
     rn = build_network(case["net"])
-    adj = adjacency(rn.graph)
     links = sorted(rn.link_helper.links.values(), key=lambda l: l.link_id)
+    if case["net"]["type"] == "grid":
+        # generated graphs carry no travel times of their own: the time of a link is its length over its speed, taken from the
+        # link table the vehicles drive on (incl. links without a speed, which get network.default_speed_kmph)
+        adj = {}
+        for l in links:
+            a, b = (int(x) for x in l.link_id.split("-"))
+            adj.setdefault(a, {})[b] = l.distance_km / l.speed_kmph * 3600.0
+        cnt["c14_links_with_default_speed"] = sum(1 for u, v, d in G_edges_missing_speed(case["net"]))
+    else:
+        adj = adjacency(rn.graph)  # shipped graphs state their own travel_time per edge
     by_tail: Dict[int, list] = collections.defaultdict(list)  # links leaving node
     by_head: Dict[int, list] = collections.defaultdict(list)  # links entering node
     for l in links:
@@ -114,6 +129,8 @@ def build_cases(tier, seed):
     ngrid, per = (24, 1500) if tier == "quick" else (640, 4000)
     for j in range(ngrid):
         net = {"type": "grid", "n": rnd.randint(4, 9), "seed": rnd.randint(0, 10**6), "speeds": rnd.choice(["varied", "varied", "mixed", "slow"]), "oneway": rnd.choice([0.0, 0.2, 0.4]), "delete": rnd.choice([0.0, 0.1, 0.2]), "dlat": rnd.choice([0.001, 0.002, 0.01]), "dlon": rnd.choice([0.0012, 0.0025, 0.012]), "stretch": rnd.choice([1.0, 1.3, 2.0])}
+        if j % 3 == 1:
+            net.update({"missing_speed": rnd.choice([0.2, 0.5]), "default_speed_kmph": rnd.choice([10.0, 100.0, 130.0])})
         cases.append({"engine": "c14_sweep", "id": f"C14-grid{j}", "seed": seed * 1000 + j, "net": net, "n": per})
     if tier == "quick":
         for j in range(8):
